@@ -8,5 +8,6 @@ AlphaHexName == {60, 62, 47, 35, 97, 49, 103, 32, 0, 10}
 AlphaNumKw == {43, 45, 46, 49, 120, 32, 47, 91, 37, 10}
 AlphaComment == {37, 13, 10, 120, 32, 40}
 AlphaEsc == {40, 41, 92, 13, 10, 120}
+AlphaOct == {40, 41, 92, 49, 55, 56}
 NoDev == {}
 ====
